@@ -371,5 +371,7 @@ def replay(ctx, case):
         r = p.parse(case["text"]); ctx.ev(); ctx.counters["reformat_of_parsed_mutants"] += 1
         if r.success and p.format(r.value).casefold() != case["text"].casefold():
             V(ctx, f"accepted-text-not-reproduced:{case['type']}", f"text {case['text']!r} parses but re-formats as {p.format(r.value)!r}", case)
+    elif "type" in ctx.shard:
+        run(ctx, ctx.shard)
     else:
         run_type(ctx, case.get("type", "LocalTime"), 8, 60) if case.get("type") in TYPES else run_builtin(ctx, 1500)
